@@ -1275,6 +1275,8 @@ impl Path {
         abs_transform: Transform,
     ) -> Option<Self> {
         let bounding_box = data.compute_tight_bounds()?;
+        // A path that is too large to be stroked is not stroked at all.
+        let stroke = stroke.filter(|_| Path::can_be_stroked(&data));
         let stroke_bounding_box =
             Path::calculate_stroke_bbox(stroke.as_ref(), &data, Transform::default())
                 .unwrap_or(bounding_box);
@@ -1397,6 +1399,18 @@ impl Path {
     /// Will have the same value as `abs_bounding_box` when path has no stroke.
     pub fn abs_stroke_bounding_box(&self) -> Rect {
         self.abs_stroke_bounding_box
+    }
+
+    /// The stroker multiplies coordinate differences with each other and the results
+    /// must stay finite, otherwise it panics. So the coordinates have to stay
+    /// well below `f32::MAX.sqrt()`.
+    fn can_be_stroked(path: &tiny_skia_path::Path) -> bool {
+        const LIMIT: f32 = 1e18;
+        let bounds = path.bounds();
+        bounds.left() >= -LIMIT
+            && bounds.top() >= -LIMIT
+            && bounds.right() <= LIMIT
+            && bounds.bottom() <= LIMIT
     }
 
     fn calculate_stroke_bbox(
